@@ -13,6 +13,7 @@ import (
 	"fmt"
 	"math/rand"
 	"os"
+	"path/filepath"
 	"runtime"
 	"sort"
 	"sync"
@@ -40,6 +41,10 @@ type Case struct {
 
 // Result is what executing one case on the implementation yields.
 type Result struct {
+	// Args, when non-nil, replaces the case's args (generators may emit an abstract form which
+	// the executor concretises; the concrete form is what the model driver is given and what a
+	// replay re-executes)
+	Args   []string
 	Impl   string
 	Oracle string
 	Soft   string
@@ -105,6 +110,23 @@ func main() {
 	emit := func(op string, args []string, class string, nontrivial bool) {
 		cases = append(cases, Case{ID: fmt.Sprintf("%s-%d", op, len(cases)+1), Op: op, Args: args, Class: class, Nontrivial: nontrivial})
 	}
+	// minimised past failures run first
+	if dir := os.Getenv("VERIF_CORPUS"); dir != "" {
+		files, _ := filepath.Glob(filepath.Join(dir, name, "*.json"))
+		sort.Strings(files)
+		for _, f := range files {
+			b, err := os.ReadFile(f)
+			if err != nil {
+				continue
+			}
+			var rec struct {
+				Case Case `json:"case"`
+			}
+			if json.Unmarshal(b, &rec) == nil && rec.Case.Op != "" {
+				cases = append(cases, Case{ID: "corpus:" + filepath.Base(f), Op: rec.Case.Op, Args: rec.Case.Args, Class: "corpus", Nontrivial: true})
+			}
+		}
+	}
 	if err := g(cfg, emit); err != nil {
 		fmt.Fprintln(os.Stderr, "harness generator error:", err)
 		os.Exit(3)
@@ -129,6 +151,9 @@ func runOne(c *Case) {
 	}
 	r := f(c.Args)
 	c.Impl, c.Oracle, c.Soft, c.Extra = r.Impl, r.Oracle, r.Soft, r.Extra
+	if r.Args != nil {
+		c.Args = r.Args
+	}
 }
 
 func runAll(cases []Case) {
